@@ -335,10 +335,24 @@ CHECK_LINKS = dict(region='check_links', file='cmdline/check.c', begin='/* for e
                    epilogue='\tgoto out;\nbail:\n\t*bailed = 1;\nout:\n\t*error_p = error; *unrecoverable_p = unrecoverable_error; *recovered_p = recovered_error;\n\t(void)esc_buffer; (void)esc_buffer_alt;')
 
 
+_EPRO = '\tstruct snapraid_disk *disk;\n\ttommy_node *node;\n\tint ret;\n\tchar esc_buffer[ESC_MAX];\n\tunsigned error = *error_p, unrecoverable_error = *unrecoverable_p, recovered_error = *recovered_p;\n\t(void)state;'
+_EEPI = '\tgoto out;\nbail:\n\t*bailed = 1;\nout:\n\t*error_p = error; *unrecoverable_p = unrecoverable_error; *recovered_p = recovered_error;\n\t(void)esc_buffer;'
+CHECK_EMPTYFILES = dict(region='check_emptyfiles', file='cmdline/check.c', begin='/* for each empty file in the disk */', end='/* for each link in the disk */', max_lines=120, expect_loops=1,
+                        proto='static void region_check_emptyfiles(struct snapraid_state *state, int fix, struct snapraid_handle *handle, unsigned i, unsigned *error_p, unsigned *unrecoverable_p, unsigned *recovered_p, int *bailed)',
+                        prologue=_EPRO, epilogue=_EEPI)
+CHECK_DIRS = dict(region='check_dirs', file='cmdline/check.c', begin='/* for each dir in the disk */', end='state_progress_end(state, countpos, countmax, countsize);', end_first_after=True, max_lines=90, expect_loops=1, brace_balance=-1,
+                  proto='static void region_check_dirs(struct snapraid_state *state, int fix, struct snapraid_handle *handle, unsigned i, unsigned *error_p, unsigned *unrecoverable_p, unsigned *recovered_p, int *bailed)',
+                  prologue=_EPRO + '\n\tif (1) { /* the region text closes the per-disk loop */', epilogue=_EEPI)
+
+
 def links_obs():
-    return [Ob('check.links.region', 'harness/h_links.c', 'h_check_links', inject=[CHECK_LINKS], unwind=6, small_path=True, timeout=1200, mem=8, cost=8, replay=False, kind='bounded', bound='at most 2 links on the disk',
+    return [Ob('check.links.region', 'harness/h_links.c', 'h_check_links', inject=[CHECK_LINKS, CHECK_EMPTYFILES, CHECK_DIRS], unwind=6, small_path=True, timeout=1200, mem=8, cost=8, replay=False, kind='bounded', bound='at most 2 links on the disk',
                functions=['state_check_process: region "for each link in the disk" .. "for each dir in the disk" (cmdline/check.c, extracted mechanically)'],
-               note='check and fix, symbolic and hard links, excluded or not, every outcome of stat / readlink / mkancestor / remove / symlink / hardlink, right or wrong target / inode')]
+               note='check and fix, symbolic and hard links, excluded or not, every outcome of stat / readlink / mkancestor / remove / symlink / hardlink, right or wrong target / inode'),
+            Ob('check.emptyfiles.region', 'harness/h_links.c', 'h_check_emptyfiles', inject=[CHECK_LINKS, CHECK_EMPTYFILES, CHECK_DIRS], defs={'VERIF_EMPTY_REGIONS': None}, unwind=6, small_path=True, timeout=900, mem=8, cost=5, replay=False, kind='bounded', bound='at most 2 files on the disk',
+               functions=['state_check_process: region "for each empty file in the disk" (cmdline/check.c, extracted mechanically)'], note='check and fix, every recorded size, excluded or not, every outcome of stat / mkancestor / open / fmtime / close'),
+            Ob('check.dirs.region', 'harness/h_links.c', 'h_check_dirs', inject=[CHECK_LINKS, CHECK_EMPTYFILES, CHECK_DIRS], defs={'VERIF_EMPTY_REGIONS': None}, unwind=6, small_path=True, timeout=900, mem=8, cost=5, replay=False, kind='bounded', bound='at most 2 directories on the disk',
+               functions=['state_check_process: region "for each dir in the disk" (cmdline/check.c, extracted mechanically)'], note='check and fix, excluded or not, every outcome of stat / mkancestor / mkdir')]
 
 
 def writeback_obs():
